@@ -356,6 +356,21 @@ def expand(item, acc: core.Acc, tier):
             if bad2:
                 clause, cls, detail = bad2
                 acc.violation(clause, cls + f",after={op[0]}", detail, {"kind": kind, "history": list(hist) + [op], "op": ("all",)})
+            elif op[0] in ("one", "many", "many0", "all", "pandas", "desc"):
+                # ... and the same through fetchone calls (fetchone and the batch fetches must share one position)
+                left = len(m2.rows) - min(model.pos, len(model.rows)) if model.rows is not None else 0
+                h2 = list(hist) + [op]
+                for _i in range(min(left, 2) + 1):
+                    m3, exp3, got3 = run_history(kind, h2, ("one",))
+                    acc.count("evaluations")
+                    acc.count("lookahead_fetchone")
+                    acc.obs(("drain1", got3))
+                    bad3 = compare(kind, m3, ("one",), exp3, got3, names_unique)
+                    if bad3:
+                        clause, cls, detail = bad3
+                        acc.violation(clause, cls + f",after={op[0]}", detail, {"kind": kind, "history": h2, "op": ("one",)})
+                        break
+                    h2 = h2 + [("one",)]
         nk = model.key(kind)
         succ.append((nk, list(hist) + [op]))
     acc.sample({"state": state, "history": hist, "ops_explored": len(ops_for(state, tier))})
